@@ -152,6 +152,9 @@ fn comb2(comb: &'static str, post: &'static str, end2: &'static str) -> Body {
         let o2c = o2.clone();
         o1.flat_map(move |_x| o2c.clone())
       }
+      "combine_latest" => o1.combine_latest(&[o2], |v: Vec<i64>| v[0] * 100 + v[1]),
+      "sequence_equal" => o1.sequence_equal(&[o2]).map(|b: bool| 7000 + b as i64),
+      "switch_on_next" => o1.switch_on_next(o2),
       "take_until" => o1.take_until(o2),
       "skip_until" => o1.skip_until(o2),
       "sample" => o1.sample(o2),
@@ -169,6 +172,22 @@ fn comb2(comb: &'static str, post: &'static str, end2: &'static str) -> Body {
     let h2 = producer(s2.clone(), "p2", vec![11, 12], end2);
     let _ = h1.join();
     let _ = h2.join();
+  })
+}
+
+/// C11: merge over three producer threads
+fn merge3() -> Body {
+  Box::new(move || {
+    let ss: Vec<Sbj> = (0..3).map(|_| Sbj::new("subject")).collect();
+    let o = ss[0].observable().merge(&[ss[1].observable(), ss[2].observable()]);
+    meta(serde_json::json!({"kind": "merge3", "observers": ["A"], "sources": {"p1": [1, 2], "p2": [11, 12], "p3": [21]}}));
+    let _sub = subscribe_rec(&o, "A");
+    let h1 = producer(ss[0].clone(), "p1", vec![1, 2], "c");
+    let h2 = producer(ss[1].clone(), "p2", vec![11, 12], "c");
+    let h3 = producer(ss[2].clone(), "p3", vec![21], "c");
+    let _ = h1.join();
+    let _ = h2.join();
+    let _ = h3.join();
   })
 }
 
@@ -551,6 +570,10 @@ pub fn catalogue() -> Vec<(String, Vec<&'static str>)> {
   for c in ["take_until", "skip_until", "sample"] {
     v.push((format!("comb2:{}:none:c", c), vec!["C19", "C07"]));
   }
+  for c in ["combine_latest", "sequence_equal", "switch_on_next", "take_until", "skip_until", "sample"] {
+    v.push((format!("comb2:{}:none:e", c), vec!["C19", "C07"]));
+  }
+  v.push(("merge3".to_string(), vec!["C11", "C19", "C07"]));
   for k in ["subject", "behavior", "replay"] {
     v.push((format!("subj_join:{}:1", k), vec!["C12", "C07"]));
     v.push((format!("subj_join:{}:2", k), vec!["C12", "C07"]));
@@ -610,6 +633,7 @@ pub fn build(name: &str) -> Option<Body> {
     "workers" if p.len() == 3 => Some(workers(p[1], p[2])),
     "workers_cold" if p.len() == 3 => Some(workers_cold(p[1], p[2])),
     "resub" if p.len() == 2 => Some(resub(p[1])),
+    "merge3" => Some(merge3()),
     _ => None,
   }
 }
